@@ -14,7 +14,7 @@ ASSUMPTIONS = [
 ]
 
 # properties whose statement covers a crash of the process under test
-CRASH_DEFAULT = ("C02", "C03", "C09", "C12", "C15", "C16", "C18")
+CRASH_DEFAULT = ("C02", "C03", "C07", "C09", "C12", "C15", "C16", "C18")
 
 
 def fams(*fs):
@@ -304,7 +304,7 @@ PROPS = {
     "C02": {"level": "model_checking", "also": ["C16_NoSuccessOnWrongCount"], "race_extra": lambda s: gen.fam_free(s, 40),
             # the design with header / trailer values: every interleaving with a Close (quick) and with a cancel (thorough, 12 M states)
             "mc": {"quick": ["MC_one", "MC_meta2_close"], "thorough": ["MC_one", "MC_meta2_close", "MC_meta_cancel", "MC_err_fail"]}, "model_replay": (28, 280),
-            "quick": lambda s: gen.fam_meta(s, 160) + gen.fam_data(s, 24),
+            "quick": lambda s: gen.fam_meta(s, 160) + gen.fam_data(s, 24) + gen.fam_unary_failing_sends(s),
             "thorough": lambda s: sum((gen.fam_meta(s + i, 400, gated=(i == 0)) for i in range(4)), []) + gen.fam_data(s, 200)},
     "C16": {"level": "model_checking",
             "quick": lambda s: gen.fam_shape(s) + gen.fam_misuse(s),
@@ -339,7 +339,7 @@ PROPS = {
                                                faults=("cancel@park", "close@park"))
                                # frames still in flight when a deadline ends the RPC on both ends (revision zero included)
                                + [x for x in gen.fam_cancel(s, 2, policies=("lazy",), fcs=("fc",)) if "deadline" in x["name"]]
-                               + gen.fam_inflight(s) + gen.fam_stalled_close(s),
+                               + gen.fam_inflight(s) + gen.fam_stalled_close(s) + gen.fam_unary_failing_sends(s),
             "thorough": lambda s: sum((gen.fam_free(s + i, 400) for i in range(4)), []) + [x for x in gen.fam_meta(s, 200, gated=False) if "meta-bin" not in x["name"]] + gen.fam_data(s, 100),
             "technique": "TLA+ trace validation (monitor mode) of free-running concurrent executions; Go race detector attached as auxiliary monitor",
             "text": "thread-safety is decided as conformance of concurrent executions: every free-running execution of a generated concurrent program, recorded with "
